@@ -377,6 +377,13 @@ def doc_examples():
 # --------------------------------------------------------------------------
 # C07
 
+def order_family(ctx, name):
+    """The evaluation-order / exactly-once programs of MC_C01 (every sub-expression of every
+    construct wrapped in a tracing call), replayed."""
+    out = ctx.run_model("MC_C01", "OrderParams", max_steps=4000, name="MC_C01order")
+    ctx.replay(out, name + "-order", seeds=(None, ctx.seed))
+
+
 def c07(ctx):
     ctx.rule = ("every nesting (depth 1-2%s) of {bare block, if-true, if-false/else, else-if chain, while, "
                 "for over list/string/object, call} x jump in {none, break, continue, return} x position, "
@@ -386,6 +393,7 @@ def c07(ctx):
     out = ctx.run_model("MC_C07", "C07Params" if ctx.quick else "C07ParamsThorough",
                         invariants=["EscapeWellFormed"], workers=16)
     ctx.replay(out, "c07", seeds=(None,) if ctx.quick else (None, ctx.seed))
+    order_family(ctx, "c07")
     scripts = [s for s in repo_test_scripts()
                if re.search(r"\b(break|continue|return|while|for|if)\b", s[1])]
     corpus_validate(ctx, scripts, "c07tests")
@@ -431,6 +439,7 @@ def c12(ctx):
     out = ctx.run_model("MC_C12", "C12Params", invariants=["C12Laws"], props=FRAME_PROPS,
                         constants={"HistLen": "= %d" % hl})
     ctx.replay(out, "c12", seeds=(None,) if ctx.quick else (None, ctx.seed))
+    order_family(ctx, "c12")
     scripts = [s for s in repo_test_scripts() if "object" in s[0] or "prop" in s[0]]
     corpus_validate(ctx, scripts, "c12tests")
 
@@ -514,18 +523,51 @@ def renaming_check(ctx, cases, name, mapping):
                                   "stderr": se.decode(errors="replace"), "exit": code})
 
 
+def c04_random_seqs(seed, n):
+    """Seeded well-formed token sequences of length 5..9 for MC_C04 (family `random`)."""
+    import random
+    rnd = random.Random(seed)
+    simple = ["D", "A", "R", "Dy", "Ry", "C", "C1", "S", "Q", "D", "R", "Q", "A"]
+    openers = ["{", "I{", "F{", "L{", "W{"]
+
+    def gen(budget, depth):
+        out = []
+        while budget > 0:
+            if budget >= 3 and depth < 3 and rnd.random() < 0.35:
+                inner = rnd.randrange(1, min(budget - 1, 4))
+                body = gen(inner, depth + 1)
+                out += [rnd.choice(openers)] + body + ["}"]
+                budget -= len(body) + 2
+            else:
+                out.append(rnd.choice(simple))
+                budget -= 1
+        return out
+    return [gen(rnd.randrange(5, 10), 0) for _ in range(n)]
+
+
 def c04(ctx):
     tl = 4 if ctx.quick else 5
-    ctx.rule = ("every well-formed token sequence of length <= %d over {x := k, x = k, print(x), y := k, print(y), "
-                "open block, open `fn f() {`, open `for _ in [1,2] {`, close, f()(), f(), guarded recursion}; every "
-                "fn body returns a closure that updates and prints x (run after its defining scope ended by f()()); "
-                "each program and its consistent renaming (x,y,f,d -> fresh names) replayed; non-trivial = every "
-                "sequence with at least one scope construct or two events; distinct = distinct token sequences" % tl)
+    nrand = 400 if ctx.quick else 6000
+    ctx.rule = ("every well-formed token sequence of length <= 3 over the 15-token scope alphabet (declare / assign / "
+                "read x, y; block, if, for, while, fn; f()(), f(), guarded recursion; push a closure over the "
+                "current scope) and of length 4..%d over a 10-token sub-alphabet; targeted families: a declaration / "
+                "assignment inside every kind of construct as the first thing of every kind of context, read after "
+                "it ended (vanish); closures created per iteration and per call, all called at the end of the "
+                "program (fresh); %d seeded random sequences of 5-9 tokens; every fn body returns a closure that "
+                "updates x after the defining scope ended; each program and its consistent renaming replayed; "
+                "non-trivial = sequences with >= 2 tokens; distinct = distinct token sequences" % (tl, nrand))
+    rf = os.path.join(sv.scratch("c04rand"), "seqs.ndjson")
+    with open(rf, "w") as f:
+        for sq in c04_random_seqs(ctx.seed, nrand):
+            f.write(json.dumps({"s": sq}) + "\n")
+    os.environ["SEED_C04_RANDOM"] = rf
     out = ctx.run_model("MC_C04", "C04Params", props=FRAME_PROPS + ["FreshPerEntry", "ShadowFrame"],
-                        constants={"TokLen": "= %d" % tl}, max_steps=700)
+                        constants={"TokLen": "= %d" % tl, "Alphabet": "<- SmallToks"}, max_steps=900)
+    os.environ.pop("SEED_C04_RANDOM", None)
     cases, _ = ctx.replay(out, "c04", seeds=(None,) if ctx.quick else (None, ctx.seed),
                           nontrivial=lambda k, b, o: len(json.loads(k)[1]) >= 2)
-    renaming_check(ctx, cases, "c04", {b"x": b"first_var", b"y": b"y2", b"f": b"fun_c", b"d": b"depth0"})
+    renaming_check(ctx, cases, "c04", {b"x": b"first_var", b"y": b"y2", b"f": b"fun_c", b"d": b"depth0",
+                                        b"fs": b"closures", b"g": b"each"})
     scripts = [s for s in repo_test_scripts()
                if "scope" in s[0] or "closure" in s[0] or "functions" in s[0] or "variables" in s[0]]
     corpus_validate(ctx, scripts, "c04tests")
@@ -574,6 +616,7 @@ def c14(ctx):
     out = ctx.run_model("MC_C14", "C14Params", invariants=["C14Laws"],
                         props=FRAME_PROPS + ["BuildFresh", "FreshPerEntry"])
     ctx.replay(out, "c14", seeds=(None, ctx.seed) if ctx.quick else (None, ctx.seed, ctx.seed + 1, ctx.seed + 2))
+    order_family(ctx, "c14")
     scripts = [s for s in repo_test_scripts() if "this" in s[0] or "function" in s[0] or "args" in s[0]]
     corpus_validate(ctx, scripts, "c14tests")
 
